@@ -37,7 +37,7 @@ def _embeds_peer(P, tyname):
 def clause1_init(ctx, P):
     init = P.fn("peer.c:init_peer")
     views = Q.path_views(ctx, P, init)
-    succ = [v for v in views if v.ret_const() == 0]
+    succ = [v for v in views if v.ret_const() == 0 or (v.ret_const() is None and not v.ret_is_null())]
     if not succ:
         raise AnalysisBroken("init_peer has no path returning 0")
     # allocation sites of peer-embedding objects
